@@ -40,6 +40,7 @@ TRUSTED_EXTRA = ["harness/sorted_common.py (generator, stub driver, exact/float 
 COMBOS = [(a, s, e, u, i) for a in ("greedy", "rr") for s in sc.SORTS for e in (False, True) for u in (False, True)
           for i in ((0.1, 0.5, 1.0) if a == "rr" else (0.5, 0.5, 0.5))]      # greedy and round robin equally often
 F = fractions.Fraction
+EDGE = [-1e-3, -5e-3, -9e-3, -2e-2, -1e-4, 1e-3, 5e-3, 2e-2]
 
 
 def priority_keys(scn):
@@ -72,6 +73,10 @@ def gen_cases(rng, n, tier):
     it = itertools.cycle(combos)
     while len(cases) < n:
         a, s, e, u, i = next(it)
+        if a == "greedy" and len(cases) % 4 == 0:
+            # a level of a finite-rate EVSE just inside / just outside the head-room left by higher-priority sessions
+            cases.append(mk_case(sc.gen_level_edge(rng, tier, sort=s, unint=u, deltas=EDGE), "edge"))
+            continue
         scn = sc.gen_scenario(rng, tier, algo=a, sort=s, est=e, unint=u, inc=i, distinct_keys=True,
                               user_bounds=rng.random() < 0.25, plenty=0.75)
         cases.append(mk_case(scn))
